@@ -35,7 +35,7 @@ def scratch_copy():
     dst = os.path.join(tmp, "repo")
     os.mkdir(dst)
     for f in os.listdir(REPO):
-        if f.endswith(".go") or f in ("go.mod", "go.sum"):
+        if os.path.isfile(os.path.join(REPO, f)) and not f.startswith(".git"):
             shutil.copy(os.path.join(REPO, f), dst)
     vd = os.path.join(tmp, "verif")
     os.mkdir(vd)
